@@ -216,10 +216,11 @@ func mergeClaim(old, launched *v1.NodeClaim) *v1.NodeClaim {
 func digestCluster(w *world.World, c *state.Cluster) []string {
 	var out []string
 	pools := map[string]bool{}
-	probe := world.Pod("probe", 1)
+	probe := world.Pod("probe", 1, hostPort(8080, ""))
+	probePorts := scheduling.GetHostPorts(probe) // same representation as the pods of the scenarios (protocol left empty)
 	for n := range c.Nodes() {
 		port := "free"
-		if err := n.HostPortUsage().Conflicts(probe, []scheduling.HostPort{{IP: nil, Port: 8080, Protocol: corev1.ProtocolTCP}}); err != nil {
+		if err := n.HostPortUsage().Conflicts(probe, probePorts); err != nil {
 			port = "8080-in-use"
 		}
 		vol := "ok"
